@@ -28,7 +28,7 @@ def registry():
     NULLS = 'null(cbcState) or null(in) or null(out)'
     R.define('bl()', 'cbcState.cipher.block_len')
     R.define('consumed()', 'u64(old(data_len) - data_len)')
-    R.define('whole()', '(old(data_len) // bl()) * bl()')          # bytes in whole blocks
+    R.define('whole()', 'u64(old(data_len) - old(data_len) % bl())')          # bytes in whole blocks
     # chaining byte t for the block that starts at byte b: the IV of the state for the first block, else the previous
     # ciphertext block (encrypt: in the output; decrypt: in the ORIGINAL input)
     common_ens = {
@@ -40,43 +40,54 @@ def registry():
     }
     OKARGS = 'not (%s) and cbcState.cipher.block_len <= 16' % NULLS
 
+    def dec_blocks(out, upto):
+        return ('all(b % bl() == 0 ==> all(' + out + '[b + t] == dk(atold(old(in) + b), bl(), t) ^ '
+                '(old(cbcState.iv[t]) if b == 0 else oldmem(old(in), b - bl() + t)) for t in range(bl())) for b in range(' + upto + '))')
+
+    def enc_blocks(out, upto):
+        return ('all(b % bl() == 0 ==> all(' + out + '[b + t] == (ekx(atold(old(in) + b), atold(cbcState.iv), bl(), t) if b == 0 else '
+                'ekx(atold(old(in) + b), ' + out + ' + b - bl(), bl(), t)) for t in range(bl())) for b in range(' + upto + '))')
+
+    LEM = {'whole': OKARGS + ' and data_len < bl() ==> whole() == consumed()'}
+    INV_COMMON = {
+        'cursor': 'data_len <= old(data_len) and offset(in) == consumed() and offset(out) == consumed() and consumed() % bl() == 0',
+        'state_iv': 'all(cbcState.iv[t] == old(cbcState.iv[t]) for t in range(16))',
+        'unread': 'all(k >= consumed() ==> old(in)[k] == oldmem(old(in), k) for k in range(old(data_len)))',
+        'untouched': 'not same(in, out) ==> all(k >= consumed() ==> old(out)[k] == oldmem(old(out), k) for k in range(old(data_len)))'}
+    QUICK = ['bl16.inplace', 'bl16.disjoint', 'null_in', 'null_out', 'null_state', 'block_too_long']
+    EARLIER = 'all(k < consumed() - bl() ==> old(out)[k] == iter(old(out)[k]) for k in range(old(data_len)))'
+
     enc = dict(common_ens)
     enc.update({
-        'blocks': OKARGS + ' ==> all(out[k] == (ekx(atold(old(in) + (k // bl()) * bl()), atold(cbcState.iv), bl(), k % bl()) if k < bl() else '
-                           'ekx(atold(old(in) + (k // bl()) * bl()), out + (k // bl()) * bl() - bl(), bl(), k % bl())) for k in range(whole()))',
+        'blocks': OKARGS + ' ==> ' + enc_blocks('out', 'whole()'),
         'iv': OKARGS + ' ==> all(t < bl() ==> cbcState.iv[t] == (old(cbcState.iv[t]) if whole() == 0 else out[whole() - bl() + t]) for t in range(16))',
         'tail': OKARGS + ' and not same(in, out) ==> all(k >= whole() ==> out[k] == old(out[k]) for k in range(data_len))'})
-    R.fn('CBC_encrypt', regions=SHAPE, configs=cfgs, cost=60, quick=['bl16.inplace', 'bl16.disjoint', 'null_in', 'null_out', 'null_state', 'block_too_long'],
-         modifies=['out', 'cbcState.iv'], ensures=enc,
-         loops={0: dict(invariants={
-             'cursor': 'data_len <= old(data_len) and offset(in) == consumed() and offset(out) == consumed() and consumed() % bl() == 0',
-             'blocks': 'all(old(out)[k] == (ekx(atold(old(in) + (k // bl()) * bl()), atold(cbcState.iv), bl(), k % bl()) if k < bl() else '
-                       'ekx(atold(old(in) + (k // bl()) * bl()), old(out) + (k // bl()) * bl() - bl(), bl(), k % bl())) for k in range(consumed()))',
-             'chain': 'all(t < bl() ==> iv[t] == (old(cbcState.iv[t]) if consumed() == 0 else old(out)[consumed() - bl() + t]) for t in range(16))',
-             'state_iv': 'all(cbcState.iv[t] == old(cbcState.iv[t]) for t in range(16))',
-             'unread': 'all(k >= consumed() ==> old(in)[k] == oldmem(old(in), k) for k in range(old(data_len)))',
-             'untouched': 'not same(in, out) ==> all(k >= consumed() ==> old(out)[k] == oldmem(old(out), k) for k in range(old(data_len)))'},
-             decreases='data_len')})
+    inv = dict(INV_COMMON)
+    inv.update({
+        'blocks': enc_blocks('old(out)', 'consumed()'),
+        'chain': 'all(t < bl() ==> iv[t] == (old(cbcState.iv[t]) if consumed() == 0 else old(out)[consumed() - bl() + t]) for t in range(16))'})
+    R.fn('CBC_encrypt', regions=SHAPE, configs=cfgs, cost=60, quick=QUICK, modifies=['out', 'cbcState.iv'], ensures=enc, lemmas=LEM,
+         loops={0: dict(invariants=inv, decreases='data_len', lemmas={
+             'new_block': 'all(old(out)[consumed() - bl() + t] == (ekx(atold(old(in) + consumed() - bl()), atold(cbcState.iv), bl(), t) if consumed() == bl() else '
+                          'ekx(atold(old(in) + consumed() - bl()), old(out) + consumed() - 2 * bl(), bl(), t)) for t in range(bl()))',
+             'earlier': EARLIER})})
 
     dec = dict(common_ens)
     dec.update({
-        'blocks': OKARGS + ' ==> all(out[k] == dk(atold(old(in) + (k // bl()) * bl()), bl(), k % bl()) ^ '
-                           '(old(cbcState.iv[k]) if k < bl() else oldmem(old(in), k - bl())) for k in range(whole()))',
+        'blocks': OKARGS + ' ==> ' + dec_blocks('out', 'whole()'),
         # the value chained into the next call is the last ciphertext block AS IT WAS ON ENTRY (in-place calls overwrite it)
         'iv': OKARGS + ' ==> all(t < bl() ==> cbcState.iv[t] == (old(cbcState.iv[t]) if whole() == 0 else oldmem(old(in), whole() - bl() + t)) '
                        'for t in range(16))',
         'tail': OKARGS + ' and not same(in, out) ==> all(k >= whole() ==> out[k] == old(out[k]) for k in range(data_len))'})
-    R.fn('CBC_decrypt', regions=SHAPE, configs=cfgs, cost=60, quick=['bl16.inplace', 'bl16.disjoint', 'null_in', 'null_out', 'null_state', 'block_too_long'],
-         modifies=['out', 'cbcState.iv'], ensures=dec,
-         loops={0: dict(invariants={
-             'cursor': 'data_len <= old(data_len) and offset(in) == consumed() and offset(out) == consumed() and consumed() % bl() == 0',
-             'blocks': 'all(old(out)[k] == dk(atold(old(in) + (k // bl()) * bl()), bl(), k % bl()) ^ '
-                       '(old(cbcState.iv[k]) if k < bl() else oldmem(old(in), k - bl())) for k in range(consumed()))',
-             'chain': 'all(t < bl() ==> iv[t] == (old(cbcState.iv[t]) if consumed() == 0 else oldmem(old(in), consumed() - bl() + t)) for t in range(16))',
-             'state_iv': 'all(cbcState.iv[t] == old(cbcState.iv[t]) for t in range(16))',
-             'unread': 'all(k >= consumed() ==> old(in)[k] == oldmem(old(in), k) for k in range(old(data_len)))',
-             'untouched': 'not same(in, out) ==> all(k >= consumed() ==> old(out)[k] == oldmem(old(out), k) for k in range(old(data_len)))'},
-             decreases='data_len')})
+    inv = dict(INV_COMMON)
+    inv.update({
+        'blocks': dec_blocks('old(out)', 'consumed()'),
+        'chain': 'all(t < bl() ==> iv[t] == (old(cbcState.iv[t]) if consumed() == 0 else oldmem(old(in), consumed() - bl() + t)) for t in range(16))'})
+    R.fn('CBC_decrypt', regions=SHAPE, configs=cfgs, cost=60, quick=QUICK, modifies=['out', 'cbcState.iv'], ensures=dec, lemmas=LEM,
+         loops={0: dict(invariants=inv, decreases='data_len', lemmas={
+             'new_block': 'all(old(out)[consumed() - bl() + t] == dk(atold(old(in) + consumed() - bl()), bl(), t) ^ '
+                          '(old(cbcState.iv[t]) if consumed() == bl() else oldmem(old(in), consumed() - 2 * bl() + t)) for t in range(bl()))',
+             'earlier': EARLIER})})
 
     # ------------------------------------------------------------------ start / stop
     cfg_start = [{'name': 'default'}] + [{'name': 'null_' + n, 'null': [n]} for n in ('cipher', 'iv', 'pResult')]
